@@ -305,7 +305,9 @@ static void case_pls(vh_ctx *c)
       for (j = 0; j < k; j++) {
         ld d = 0, tj = 0;
         for (i = 0; i < n; i++) { d += (ld)m->xscores->data[i][k] * m->xscores->data[i][j]; tj += (ld)m->xscores->data[i][j] * m->xscores->data[i][j]; }
-        if (tj > 0 && fabsl(d) > 1e-6L * sqrtl(tk * tj)) vh_fail(c, "PLS|score-orthogonality-degenerate", "t_%zu . t_%zu = %.3Lg (norms %.3Lg %.3Lg)", k, j, d, sqrtl(tk), sqrtl(tj));
+        /* rounding floor: the deflation leaves ~eps |t_j|^2 of t_j in the later scores, whatever their own size (a component at the edge of the
+           numerical rank can be 1e-9 of the first one) */
+        if (tj > 0 && fabsl(d) > 1e-6L * sqrtl(tk * tj) + 1e3L * 2.220446049250313e-16L * (tj > tk ? tj : tk)) vh_fail(c, "PLS|score-orthogonality-degenerate", "t_%zu . t_%zu = %.3Lg (norms %.3Lg %.3Lg)", k, j, d, sqrtl(tk), sqrtl(tj));
       }
     }
     for (k = 0; k < m->xvarexp->size; k++) {
